@@ -155,7 +155,8 @@ def gen_case(rng):
             'delete_pick': rng.randrange(100),
             # how every followed proxy is touched FIRST, and how the deletion clause deletes
             'touch': rng.choice(['random', 'random', 'random'] + TOUCHES), 'touch_seed': rng.randrange(1 << 20),
-            'delete_mode': rng.choice(['through', 'direct'])}
+            'delete_mode': rng.choice(['through', 'direct']),
+            'delete_recursive': rng.random() < 0.6}
 
 
 def oname(o):
@@ -414,6 +415,22 @@ def evaluate(case, stats=None):
                 # collections that hold the target (or something it contains: delete() is recursive) under a stale
                 # hash: the membership defect. It explains a delete() that raises, and a reference left in THOSE
                 # collections; anything else keeps the shape of the reference the deletion went through
+                recursive = case.get('delete_recursive', True)
+
+                def content_view():
+                    # what the contents of the target hold and who refers to them (by name): untouched by delete(recursive=False)
+                    v = {}
+                    for c in d.eAllContents():
+                        own = {f2: [getattr(y.force_resolve() if isinstance(y, E.EProxy) else y, 'name', None)
+                                    for y in (list(c.eGet(f2)) if m2 else ([c.eGet(f2)] if c.eGet(f2) is not None else []))
+                                    if (y.force_resolve() if isinstance(y, E.EProxy) else y) is not d]   # (what refers to d goes)
+                               for f2, (m2, _) in REFS.items()}
+                        refd = sorted((on2, f2) for on2, o2 in lobjs.items() for f2, (m2, _) in REFS.items()
+                                      for y in (list(o2.eGet(f2)) if m2 else ([o2.eGet(f2)] if o2.eGet(f2) is not None else []))
+                                      if (y.force_resolve() if isinstance(y, E.EProxy) else y) is c and o2 is not d)
+                        v[c.name] = (own, refd)
+                    return v
+                before_contents = content_view() if not recursive else None
                 doomed = [d] + list(d.eAllContents())
                 stale = set()
                 for on2, o2 in lobjs.items():
@@ -425,14 +442,35 @@ def evaluate(case, stats=None):
                             if has_stale and any(y.force_resolve() is dd for y in c2 for dd in doomed):
                                 stale.add((on2, f2))     # removing from it fails, or corrupts its index
                 how = f'delete() through {on}.{f}[{i}]' if mode == 'through' else f'{tn}.delete() (reached by {on}.{f}[{i}])'
+                if not recursive:
+                    how += ' with recursive=False'
                 try:
                     parent = d.eContainer()
+                    contents = list(d.eAllContents())
                     if mode == 'through':
-                        x.delete()
+                        x.delete() if recursive else x.delete(recursive=False)
                     else:
-                        d.delete()
+                        d.delete() if recursive else d.delete(recursive=False)
                     problems = []
                     left_in = []
+                    if not recursive and not stale:
+                        after = {}
+                        for c in contents:
+                            own = {f2: [getattr(y.force_resolve() if isinstance(y, E.EProxy) else y, 'name', None)
+                                        for y in (list(c.eGet(f2)) if m2 else ([c.eGet(f2)] if c.eGet(f2) is not None else []))
+                                        if (y.force_resolve() if isinstance(y, E.EProxy) else y) is not d]
+                                   for f2, (m2, _) in REFS.items()}
+                            refd = sorted((on2, f2) for on2, o2 in lobjs.items() for f2, (m2, _) in REFS.items()
+                                          for y in (list(o2.eGet(f2)) if m2 else ([o2.eGet(f2)] if o2.eGet(f2) is not None else []))
+                                          if (y.force_resolve() if isinstance(y, E.EProxy) else y) is c and o2 is not d)
+                            after[c.name] = (own, refd)
+                        # references held BY the deleted object itself are cleared (also those to its contents: kids)
+                        changed = [n for n in before_contents
+                                   if {k: v for k, v in before_contents[n][0].items()} != {k: v for k, v in after.get(n, ({}, []))[0].items()}
+                                   or before_contents[n][1] != after.get(n, ({}, []))[1]]
+                        if changed:
+                            problems.append(f'delete(recursive=False) touched the contents {changed[:3]} of {tn} '
+                                            f'(before {[before_contents[c] for c in changed[:1]]}, after {[after.get(c) for c in changed[:1]]})')
                     if parent is not None and any(k is d for k in parent.kids):
                         problems.append(f'{tn} is still a child of its container')
                     if parent is not None and d.eContainer() is not None:
@@ -455,8 +493,12 @@ def evaluate(case, stats=None):
                                 sh = shape_of(case, expected, k[0][0], k[0][1])
                         fail('delete', sh, f'{how}: ' + '; '.join(problems[:3]))
                 except Exception as e:
-                    if stale and isinstance(e, (KeyError, RuntimeError)):
-                        sh = STALE       # OrderedSet.remove/discard on a stale key: KeyError, or the index dict grows
+                    import traceback as _tb
+                    in_oset = any('ordered_set' in (fr.filename or '') for fr in _tb.extract_tb(e.__traceback__))
+                    if isinstance(e, (KeyError, RuntimeError)) and (stale or in_oset):
+                        # OrderedSet.remove/discard on a stale key: KeyError, or the index dict grows while it is walked
+                        # (raised from inside ordered_set: the membership defect, whatever the probe above saw)
+                        sh = STALE
                     fail('delete', sh, f'{how} raises {type(e).__name__}: {e}'[:300])
         if stats is not None:
             stats['refs_followed'] = stats.get('refs_followed', 0) + nfollowed
@@ -741,8 +783,11 @@ def sig_of(case, f):
         shape = shape.replace('-nonunique', '')     # the order of a list and of an ordered set is lost the same way
         if shape.endswith('-opposite'):
             shape = 'many-opposite'  # with an opposite the order comes from the handshake, mixed with local targets or not
+    layout = case['layout']['kind']
+    if f['clause'] == 'member' or shape == STALE:
+        layout = 'any'       # the stale-hash membership defect and its consequences do not depend on the directory layout
     return {'property': 'C14', 'clause': f['clause'], 'format': case['format'],
-            'layout': case['layout']['kind'], 'shape': shape}
+            'layout': layout, 'shape': shape}
 
 
 # witnesses of the known findings and of the defects this check found (fixed in /repo), evaluated first on every run
